@@ -199,16 +199,34 @@ def _cb(g):
     return g.callback
 
 
+def _other_data(a):
+    """Some other data set of a different shape (every axis one longer) for an estimator's earlier fits."""
+    if isinstance(a, np.ndarray):
+        return np.pad(a, [(0, 1)] * a.ndim, mode="edge") if a.ndim else a
+    if isinstance(a, (list, tuple)):
+        return type(a)(_other_data(x) for x in a)
+    return a
+
+
 def _refit(g, est, method, *args):
-    """Fit the same estimator object g.refit times and return the last result: with an integer
-    random_state every fit must start from the seed again, so the number of earlier fits cannot matter."""
-    n = max(1, g.refit)
+    """Fit the same estimator object several times and return the last result: with an integer random_state
+    (or no random choice at all) every fit must start afresh, so neither the number of earlier fits nor what
+    they were fitted on can matter.  g.refit = n: n fits on the same data; 10 + n: the n - 1 earlier fits are
+    on *other* data of another shape (an earlier fit that raises is simply the caller's failed attempt)."""
+    n = max(1, g.refit % 10)
+    other = g.refit >= 10
     if not isinstance(getattr(est, "init", "svd"), str):
         # a user-supplied initialisation object is handed to every fit; the (known, C15) in-place rescaling of
         # non-unit-weight initialisations would make the second fit start elsewhere - not an RNG matter
         n = 1
     out = None
-    for _ in range(n):
+    for i in range(n):
+        if other and i < n - 1:
+            try:
+                getattr(est, method)(*[_other_data(a) for a in args])
+            except Exception:  # noqa
+                pass
+            continue
         out = getattr(est, method)(*args)
     return out
 
@@ -304,6 +322,8 @@ def e_CP(g):
     rank = g.choice([2, 1, 3])
     kw = dict(rank=rank, n_iter_max=g.choice([2, 1, 3]))
     _cp_common(g, kw, shape, rank)
+    if isinstance(kw.get("init", "svd"), str) and g.flag(0.2):
+        kw["rank"] = g.choice([0.5, "same", 0.3])  # relative to the tensor's size: resolved at each fit
     g.opt(kw, "normalize_factors", [True], 0.25)
     if g.flag(0.3):
         kw["fixed_modes"] = g.choice([[0], [2], [0, 2]])
@@ -844,11 +864,26 @@ def e_cmtf(g):
     return dict(fn=D.coupled_matrix_tensor_3d_factorization, kwargs=kw)
 
 
+def _low_order(g, shape):
+    """Mostly the given shape; sometimes an order-2 or order-1 tensor (nothing left to contract once the one
+    mode is skipped: products then hand back their input object)."""
+    return tuple(shape[: g.choice([3, 3, 3, 3, 2, 1])])
+
+
+def _symmetric(g):
+    rs = g.rs()
+    order = g.choice([3, 3, 3, 3, 2, 1])
+    v = rs.random_sample((3, 2))
+    a = g.arr((3,) * order, signed=False)
+    a[...] = np.einsum(*sum(([v, [i, order]] for i in range(order)), []), list(range(order)))
+    return a
+
+
 @entry("parafac_power_iteration")
 def e_power(g):
     import tensorly.decomposition as D
 
-    shape = g.shape3()
+    shape = _low_order(g, g.shape3())
     kw = dict(tensor=g.low_rank(shape, 2), rank=g.choice([2, 1]), n_repeat=2, n_iteration=2)
     return dict(fn=D.parafac_power_iteration, kwargs=kw)
 
@@ -857,11 +892,7 @@ def e_power(g):
 def e_sympower(g):
     import tensorly.decomposition as D
 
-    rs = g.rs()
-    v = rs.random_sample((3, 2))
-    t = np.einsum("ir,jr,kr->ijk", v, v, v)
-    a = g.arr((3, 3, 3), signed=False)
-    a[...] = t
+    a = _symmetric(g)
     kw = dict(tensor=a, rank=g.choice([2, 1]), n_repeat=2, n_iteration=2)
     return dict(fn=D.symmetric_parafac_power_iteration, kwargs=kw)
 
@@ -1690,11 +1721,9 @@ def e_power_it(g):
     g.notes["which"] = which
     rs = g.rs()
     if which in ("symmetric_power_iteration", "SymmetricCP"):
-        v = rs.random_sample((3, 2))
-        a = g.arr((3, 3, 3), signed=False)
-        a[...] = np.einsum("ir,jr,kr->ijk", v, v, v)
+        a = _symmetric(g)
     else:
-        a = g.low_rank(g.shape3(), 2)
+        a = g.low_rank(_low_order(g, g.shape3()), 2)
     if which == "power_iteration":
         return dict(fn=D.power_iteration, kwargs=dict(tensor=a, n_repeat=2, n_iteration=2))
     if which == "symmetric_power_iteration":
